@@ -40,6 +40,39 @@ PLANS = {
         assumptions=COMMON_ASSUMPTIONS,
         gates=dict(rel=dict(max_levels=64, max_distinct_level_lengths=3, single_symbol_huffman_trees=1)),
     ),
+    "C05": dict(
+        lanes=dict(quick=[("rel", N), ("dbg", N), ("miri", N)],
+                   thorough=[("rel", N), ("dbg", N), ("asan", N), ("miri", N), ("mirirel", N)]),
+        rule="cases = (RSQVector256|RSQVector512) x quaternary input spec x construction path (new(&[u8]), new(&[u64]), From<QVector>, collect); "
+             "specs: every boundary length (around 128/256/512/2048/4096/8192/...), symbol mixes (uniform, constant, periodic, runs, one rare "
+             "symbol, skewed, two symbols), occurrence counts around 8192*k, seeded random. Battery: len/is_empty/get/rank/select/occs/"
+             "occs_smaller/iterators on valid, boundary and invalid arguments (symbols 4..255, positions past the end). Class = (type, length "
+             "bucket, mix, path); non-trivial iff n >= 2 and a non-zero rank or a select position was compared.",
+        assumptions=COMMON_ASSUMPTIONS,
+        gates=dict(rel=dict(max_select_samples_one_symbol=3, max_superblocks=20)),
+    ),
+    "C06": dict(
+        lanes=dict(quick=[("rel", N), ("dbg", N), ("miri", N)],
+                   thorough=[("rel", N), ("dbg", N), ("asan", N), ("miri", N), ("mirirel", N)]),
+        rule="cases = (RSNarrow|RSWide) x bit-vector spec x construction path (new/From, from bools / from positions); specs: boundary lengths "
+             "(multiples of 64, 512, 4096, 32768 +-1), densities 0..100 %, runs, every-64th, clustered, ones/zeros counts crossing the hint "
+             "periods (1024 / 8192), seeded random. Battery: get/rank1/rank0/select1/select0/n_ones/n_zeros/bv_len on valid, boundary and "
+             "invalid arguments. Non-trivial iff n >= 2 and a non-zero rank or a select position was compared.",
+        assumptions=COMMON_ASSUMPTIONS,
+        gates=dict(rel=dict(max_ones=3 * 8192, max_zeros=3 * 8192)),
+    ),
+    "C07": dict(
+        lanes=dict(quick=[("rel", N), ("dbg", N)],
+                   thorough=[("rel", N), ("dbg", N), ("asan", N), ("miri", N)]),
+        rule="cases = DArray<false|true> x input (concatenation of groups of ones: dense (span < 65536), sparse, exactly at the threshold "
+             "(span 65535/65536/65537), partial last groups incl. one whose last one is a sub-group head; all 2- and 3-group orders, random "
+             "mixtures; and the complement for the zero inventories; plus generic bit specs) x constructor (bits / positions / new). Battery: "
+             "select1 (and select0) for EVERY k below the count, None beyond; len/count_ones/count_zeros/get/ones()/zeros()/iter(). "
+             "Class = (type, group-kind string, complement); non-trivial iff a select position was compared.",
+        assumptions=COMMON_ASSUMPTIONS,
+        gates=dict(rel=dict(dense_group_after_sparse_group=1, threshold_group=1, partial_last_group=1, select0_support_true=1,
+                            select0_support_false=1)),
+    ),
 }
 
 
